@@ -366,6 +366,19 @@ async fn add_node_gate(addr: &str, salt: u64) -> Result<bool, String> {
     Ok(outcomes[1..].iter().any(|r| matches!(r, Err(e) if e.contains("IP diversity"))))
 }
 
+/// eviction must read the stored address string as the same socket address that admission read: after the only
+/// node at an address is evicted (or fails), a newcomer at that address is admitted again
+async fn add_node_release(addr: &str, salt: u64, by_failure: bool) -> Result<bool, String> {
+    let mut eng: DhtCoreEngine = saorsa_core::verif_hooks::dht_core_engine_with_validation_mode(NodeId::from_bytes([7u8; 32]),
+        saorsa_core::dht::routing_maintenance::close_group_validator::CloseGroupEnforcementMode::LogOnly).map_err(|e| e.to_string())?;
+    let mk = |k: u8| { let mut id = [0u8; 32]; id[0] = 0x80 >> k; id[31] = k + 1; id[8] = salt as u8; NodeId::from_bytes(id) };
+    let info = |k: u8| NodeInfo { id: mk(k), address: addr.to_string(), last_seen: std::time::SystemTime::now(), capacity: NodeCapacity::default() };
+    eng.add_node(info(0)).await.map_err(|e| format!("first add_node failed: {e}"))?;
+    if by_failure { eng.handle_node_failure(mk(0)).await.map_err(|e| e.to_string())?; }
+    else { eng.evict_node(&mk(0), saorsa_core::dht::routing_maintenance::EvictionReason::Stale).await.map_err(|e| e.to_string())?; }
+    Ok(eng.add_node(info(1)).await.is_ok())
+}
+
 fn main() {
     let args = Args::parse();
     install_trace_sink();
@@ -494,7 +507,20 @@ fn main() {
                 sum.case(id, json!({"kind": "add_node", "plain": plain, "rendered": rendered, "gate_applied_to_plain": c, "gate_applied_to_rendered": r}));
                 id += 1;
             }
+            (c, r) if false => { let _ = (c, r); }
             (c, r) => { sum.discarded_ambiguous += 1; sum.notes.push(format!("add_node control inconclusive for {}: {:?} / {:?}", plain, c, r)); }
+        }
+        // ... and the removal paths read the same strings the same way
+        for (text, what) in [(&plain, "plain"), (&rendered, "rendered")] {
+            match rt.block_on(add_node_release(text, k, k % 2 == 0)) {
+                Ok(true) => sum.count("add_node:slot-returned-after-removal"),
+                Ok(false) => {
+                    sum.violation(id, "after the only node at an address was evicted / failed, a newcomer at the same library-produced address string is refused: the removal path does not read the string as the socket address admission charged", &[],
+                        json!({"address": text, "form": what, "removed_by": if k % 2 == 0 { "handle_node_failure" } else { "evict_node" }}));
+                    sum.case(id, json!({"kind": "add_node-release", "address": text, "form": what})); id += 1;
+                }
+                Err(e) => { sum.discarded_ambiguous += 1; sum.notes.push(format!("add_node release probe inconclusive for {}: {}", text, e)); }
+            }
         }
         sum.evaluations += 1;
     }
